@@ -54,7 +54,35 @@ pub fn observe_cen(c: &CenCase) -> String {
     )
 }
 
+/// a chain of `k` "diamonds" a_i -> {b_i1 .. b_iw} -> a_{i+1}: w^k shortest paths between the two ends, so the path
+/// counts of the Brandes stages pass 2^53 and 2^64 for k >= 54 / 65 (w = 2) while the betweenness values stay small
+fn gen_diamond_chain(rng: &mut Rng) -> CenCase {
+    let weighted = rng.chance(50);
+    let width = if rng.chance(75) { 2 } else { 3 };
+    let k = if rng.chance(30) { rng.range(60, 72) } else if rng.chance(50) { rng.range(30, 59) } else { rng.range(1, 29) } as usize;
+    let k = if width == 3 { k.min(48) } else { k };
+    let n = k * (width + 1) + 1;
+    let mut pool: Vec<u32> = (1..=(n as u32 + 9)).collect();
+    rng.shuffle(&mut pool);
+    let nodes: Vec<u32> = pool[..n].to_vec();
+    let w = if weighted { Some(rng.range(1, 3)) } else if rng.chance(50) { None } else { Some(rng.range(1, 3)) };
+    let directed = rng.chance(50);
+    let mut edges = vec![];
+    let a = |i: usize| nodes[i * (width + 1)];
+    for i in 0..k {
+        for j in 1..=width {
+            let b = nodes[i * (width + 1) + j];
+            edges.push((a(i), b, w));
+            if directed || rng.chance(50) { edges.push((b, a(i + 1), w)); } else { edges.push((a(i + 1), b, w)); }
+        }
+    }
+    rng.shuffle(&mut edges);
+    let specs = crate::store::Specs { directed, multi: false, self_loops: false, dedupe: 1, missing: 0, slfalse: 1 };
+    CenCase { g: GraphCase { specs, nodes, edges }, weighted, spec_limit: 8, wdiv: *rng.pick(&[1u32, 1, 2]) }
+}
+
 pub fn gen_cen(rng: &mut Rng, profile: &str, size: usize) -> CenCase {
+    if profile == "diamond" { return gen_diamond_chain(rng); }
     let big = profile == "parallel";
     let weighted = rng.chance(50);
     let o = GenOpts {
